@@ -144,11 +144,13 @@ Definition op_of_val (v : rawval) : push_op :=
   | RNull => PNulls 1
   end.
 
-(* MixedColBuffer::finalize: RawVal::Null => {} (the cell is skipped) *)
+(* MixedColBuffer::finalize.
+   History: until /repo f5be0e2 the arm was `RawVal::Null => {}`: the cell was skipped, the finished
+   column was shorter than the buffer (finding F4).  Now `RawVal::Null => string_col.push("")`. *)
 Fixpoint mixed_strings (data : list rawval) : list str :=
   match data with
   | [] => []
-  | v :: r => match raw_to_string v with Some s => s :: mixed_strings r | None => mixed_strings r end
+  | v :: r => match raw_to_string v with Some s => s :: mixed_strings r | None => [] :: mixed_strings r end
   end.
 
 Definition finalize (cb : colbuf) : result column :=
